@@ -5,7 +5,10 @@ import importlib, os, sys
 HERE = os.path.dirname(os.path.abspath(__file__))
 sys.path.insert(0, HERE)
 sys.path.insert(0, os.path.dirname(HERE))
-GENERATORS = ["tables"]
+# every tools/translate/*.py with a `generate(repo, outdir)` function is a generator
+GENERATORS = sorted(f[:-3] for f in os.listdir(HERE)
+                    if f.endswith(".py") and f not in ("run_all.py",) and not f.startswith("_")
+                    and "def generate(" in open(os.path.join(HERE, f)).read())
 
 
 def run(repo=None, out=None):
